@@ -180,22 +180,37 @@ U4_NOTE = ('Trusted: Verus/Z3; the POSIX/std/filetime stand-ins in contracts/pre
            'sequential (solo) filesystem model; extraction transformations T1-T9 checked by token-level erasure on every run. ')
 
 
-def _u4(pid, text, replayer=None, thorough=None, not_covered=(), units=('u4_rawfs',), extra_assume=()):
+def _u4(pid, text, replayer=None, thorough=None, not_covered=(), units=('u5_sharded',), extra_assume=()):
     PROPS[pid] = {
         'units': list(units),
         'replayer': replayer,
         'thorough': thorough,
         'assumptions': FS_ASSUMPTIONS + list(extra_assume),
-        'not_covered': list(not_covered),
-        'level_text': text,
-        'level_note': U4_NOTE + ('Not covered: ' + '; '.join(not_covered) if not_covered else ''),
+        'not_covered': [x for x in not_covered if x],
+        'level_text': text + SHARDED_TEXT.get(pid, ''),
+        'level_note': U4_NOTE + ('Not covered: ' + '; '.join([x for x in not_covered if x]) if [x for x in not_covered if x] else ''),
         'technique': 'Verus contracts (ghost filesystem World threaded through functions extracted verbatim from /repo; protocol guarantees as '
                      'preconditions of POSIX stubs; frames and exact effects as postconditions; loop invariants; lemmas)',
     }
 
 
+SHARDED_TEXT = {
+    'C11': " Sharded front-end: get returns the copy in the primary candidate, else the one in the secondary, None iff both are absent; set/put create a link only under one of the two "
+           "candidate entry paths of the key and, when no call failed, never leave a copy in both candidates unless both already held one (for arbitrary in-memory load estimates); success consumes the source.",
+    'C16': " Sharded front-end: an invalid name fails with InvalidInput with the filesystem, the trigger countdown and the publish counter unchanged (the only call made is a stat); "
+           "everything that changes is inside the shard directories of this cache (sharded_frame).",
+    'C17': " Sharded front-end: maintenance of the written shard and of the random other shard is confined to evictable entries and stale temporary files of shard directories of this cache.",
+    'C15': " Sharded lookups change nothing but the access time of an entry stored under one of the two candidate paths of the key.",
+    'C05': " Sharded lookups report absence from both candidates as a miss/false; every Err implies an invalid name or a counted hard fault.",
+    'C18': " Sharded get/touch/set/put propagate every non-absence error (an Err of the primary probe is never turned into the answer of the secondary probe).",
+    'C06': " Sharded: get <= 6 calls / 2 opens, touch <= 2, set <= 20 + 3L, put <= 22 + 3L calls for L directory items read by maintenance.",
+    'C20': " Sharded: at most two open attempts per lookup; write step counts are a constant plus three per directory item read by maintenance.",
+    'C09': " Sharded get/touch mark the copy they find (primary first) without touching mtime.",
+    'C01': " Sharded get returns a read-only handle on the inode bound under one of the two candidate paths of exactly that key.",
+    'C02': " Sharded: shard directories and their .kismet_temp are the only directories ever created (sharded_frame / sharded_temp_frame).",
+}
 STACK_NC = 'the stacked front-end (stack.rs / readonly.rs: Cache, ReadOnlyCache, get_or_update/ensure/promotion) is not under contract yet'
-SHARD_NC = 'the sharded front-end (sharded.rs get/set/put/touch, load estimates) is not under contract yet'
+SHARD_NC = None
 CONC_NC = ('interleavings with other participants are not quantified over: the contracts are sequential; only the per-step protocol guarantees '
            '(preconditions on private files) are schedule-independent')
 
@@ -258,12 +273,17 @@ _u4('C19', 'Proof that CacheDir::get returns a handle with can_write == false on
 _u4('C03', 'Proof that rename/link require `must_sync ==> synced` and `!writable` of the source (publish guarantee) at both publishing sites of raw_cache, that nothing in raw_cache / cache_dir '
     'clears the synced flag, and that chmod/write stubs cannot touch a visible inode.',
     not_covered=['where the flush happens (Cache::maybe_sync_path, finalize_tempfile, promote) is in stack.rs', STACK_NC])
-PROPS['C10']['units'] = ['u2_trigger', 'u4_rawfs']
+PROPS['C10']['units'] = ['u2_trigger', 'u5_sharded']
 PROPS['C10']['assumptions'] += FS_ASSUMPTIONS
-PROPS['C10']['not_covered'] = [SHARD_NC]
+PROPS['C10']['not_covered'] = []
 PROPS['C10']['level_text'] += (' In the filesystem unit: plain::Cache::new builds the trigger with period capacity/3; CacheDir::maybe_cleanup is exactly one trigger event and runs the whole '
                                 'maintenance iff it fires, with no filesystem call otherwise; set/put call it before their first publishing step (cleanup_frame keeps `published` unchanged).')
 PROPS['C08']['units'] = ['u1_planner']
+PROPS['C12']['units'] = ['u3_hash', 'u5_sharded']
+PROPS['C12']['assumptions'] += FS_ASSUMPTIONS
+PROPS['C12']['not_covered'] = []
+PROPS['C12']['level_text'] += (' Filesystem level (unit U5): sharded::Cache::new clamps n < 2 to 2; shard(i) is child(root, fmt_shard(i)); get/touch probe the primary candidate first and the '
+                                'secondary only on a miss; set/put create links only under the two candidate entry paths; sort_by_load returns the pair or its swap (estimates merely choose).')
 
 NOT_CLAIMED = {
     'C04': 'linearizability under real interleavings needs interference in the filesystem stubs; the contracts built here are sequential (per-operation atomic steps are visible in C11/C01 evidence)',
